@@ -93,6 +93,8 @@ def corruptions(doc, ver, clsname=None, dictionary=None):
             out.append(_set(p, "num:neg-huge", -10 ** 30))
             if k == "integer":
                 out.extend([_set(p, "num:fraction", 1.5), _set(p, "num:integral-float", 3.0), _set(p, "num:string", "7")])
+            for txt in ("nan", "NaN", "inf", "-inf", "Infinity", "1e999", " 5 ", "0x10", "1_0"):
+                out.append(_set(p, "num:text:" + txt.strip(), txt))     # text that float()/int() may coerce
         elif k in ("enum", "open-vocab"):
             out.append(_set(p, "vocab:out", "zzz-not-in-vocabulary"))
             if d["allowed"]:
@@ -199,6 +201,10 @@ def constraint_breaks(doc, ver, clsname, path=()):
                     out.append({"path": list(path) + [c["b"]], "op": "set", "kind": "constraint:order:%s=%s" % (c["b"], c["a"]), "value": a})
             elif isinstance(b, str):
                 out.append({"path": list(path) + [c["a"]], "op": "set", "kind": "constraint:order:%s>%s" % (c["a"], c["b"]), "value": "9999-12-31T23:59:59.999Z"})
+        elif k == "at_least_one":
+            present = [p for p in c["props"] if p in doc]
+            if present:
+                out.append({"path": list(path) + [present[0]], "op": "del", "kind": "constraint:at-least-one:none-left", "value": None, "also_del": present[1:]})
         elif k in ("xor", "at_most_one"):
             present = [p for p in c["props"] if p in doc]
             absent = [p for p in c["props"] if p not in doc]
@@ -213,10 +219,10 @@ def constraint_breaks(doc, ver, clsname, path=()):
                 for p in c["then"]:
                     if p in doc:
                         out.append({"path": list(path) + [p], "op": "del", "kind": "constraint:requires:%s-without-%s" % (c["if"], p), "value": None})
-            else:
-                samples = {"decryption_key": "k", "encryption_algorithm": "mime-type-indicated", "url": "http://x", "precision": 1.0}
-                if c["if"] in samples and not any(p in doc for p in c["then"]):
-                    out.append({"path": list(path) + [c["if"]], "op": "add", "kind": "constraint:requires:%s-alone" % c["if"], "value": samples[c["if"]]})
+            # the dependent property alone, with an ordinary and with a *falsy* value (truthiness guards are a classic slip)
+            for label, val in dependent_samples(m.props(clsname).get(c["if"])):
+                out.append({"path": list(path) + [c["if"]], "op": "set", "kind": "constraint:requires:%s-alone:%s" % (c["if"], label), "value": val,
+                            "also_del": list(c["then"])})
         elif k == "special":
             n = c["name"]
             if n == "malware-family-name" and "name" in doc:
@@ -229,10 +235,43 @@ def constraint_breaks(doc, ver, clsname, path=()):
             if n == "location":
                 if "latitude" in doc:
                     out.append({"path": list(path) + ["longitude"], "op": "del", "kind": "constraint:latitude-without-longitude", "value": None})
+                for label, val in (("value", 5.0), ("zero", 0.0), ("int-zero", 0)):
+                    out.append({"path": list(path) + ["precision"], "op": "set", "kind": "constraint:precision-without-coordinates:" + label, "value": val,
+                                "also_del": ["latitude", "longitude"], "also_set": {"region": "africa"}})
+                for label, val in (("zero", 0.0), ("value", 10.5)):
+                    out.append({"path": list(path) + ["latitude"], "op": "set", "kind": "constraint:latitude-alone:" + label, "value": val,
+                                "also_del": ["longitude"], "also_set": {"region": "africa"}})
+                    out.append({"path": list(path) + ["longitude"], "op": "set", "kind": "constraint:longitude-alone:" + label, "value": val,
+                                "also_del": ["latitude"], "also_set": {"region": "africa"}})
+                out.append({"path": list(path) + ["region"], "op": "del", "kind": "constraint:location-nowhere", "value": None, "also_del": ["country", "latitude", "longitude", "precision"]})
+            if n == "malware-family-name":
+                out.append({"path": list(path) + ["is_family"], "op": "set", "kind": "constraint:malware-family-without-name:2", "value": True, "also_del": ["name"]})
+            if n == "file20-is-encrypted":
+                for label, val in (("value", "k"), ("empty", "")):
+                    out.append({"path": list(path) + ["decryption_key"], "op": "set", "kind": "constraint:decryption_key-on-unencrypted:" + label, "value": val, "also_set": {"is_encrypted": False}})
             if n == "socket-options" and "options" in doc:
                 out.append({"path": list(path) + ["options"], "op": "set", "kind": "constraint:socket-option-key", "value": {"FOO_BAR": 1}})
                 out.append({"path": list(path) + ["options"], "op": "set", "kind": "constraint:socket-option-value", "value": {"SO_RCVBUF": "big"}})
     return out
+
+
+def dependent_samples(desc):
+    if desc is None:
+        return []
+    k = desc["kind"]
+    if k in ("string", "open-vocab"):
+        return [("value", "k"), ("empty", "")]
+    if k == "enum":
+        return [("value", desc["allowed"][0])]
+    if k == "float":
+        return [("value", 1.5), ("zero", 0.0), ("int-zero", 0)]
+    if k == "integer":
+        return [("value", 3), ("zero", 0)]
+    if k == "boolean":
+        return [("true", True), ("false", False)]
+    if k == "binary":
+        return [("value", "AAAA")]
+    return []
 
 
 def apply(doc, c):
@@ -251,9 +290,14 @@ def apply(doc, c):
             cur[leaf] = copy.deepcopy(c["value"])
         else:
             cur[leaf] = copy.deepcopy(c["value"])
-    for k, v in (c.get("also_set") or {}).items():
+    if c.get("also_set") or c.get("also_del"):
         parent = out
         for comp in path[:-1]:
             parent = parent[comp]
-        parent[k] = v
+        for k, v in (c.get("also_set") or {}).items():
+            if k != leaf:
+                parent[k] = v
+        for k in c.get("also_del") or []:
+            if k != leaf and isinstance(parent, dict):
+                parent.pop(k, None)
     return out
